@@ -39,6 +39,8 @@ var serverVars = map[string]featVar{
 	"L1ms":  {[]uint{1}, lMeasServer, true, model.RoleTypeServer, model.FeatureTypeTypeMeasurement},
 	"L1cl":  {[]uint{1}, lLCClient, true, model.RoleTypeClient, model.FeatureTypeTypeLoadControl},
 	"Lnm":   {[]uint{0}, 0, true, model.RoleTypeSpecial, model.FeatureTypeTypeNodeManagement},
+	// a Generic server feature (worlds whose operations mention it only): fits every requested type
+	"L1gen": {[]uint{1}, 5, true, model.RoleTypeServer, model.FeatureTypeTypeGeneric},
 	"L1x":   {[]uint{1}, 9, false, "", ""},
 	"L9":    {[]uint{9}, 1, false, "", ""},
 }
@@ -147,7 +149,7 @@ func (m *regModel) clientOK(p, c string, t model.FeatureTypeType) bool {
 	if !m.conn[p] || !cv.exists || !m.ents[p][entCode(cv.ent)] {
 		return false
 	}
-	return (cv.role == model.RoleTypeClient || cv.role == model.RoleTypeSpecial) && cv.typ == t
+	return (cv.role == model.RoleTypeClient || cv.role == model.RoleTypeSpecial) && (cv.typ == t || cv.typ == model.FeatureTypeTypeGeneric)
 }
 
 func (m *regModel) clientExists(p, c string) bool {
@@ -157,7 +159,7 @@ func (m *regModel) clientExists(p, c string) bool {
 
 func serverOK(s string, t model.FeatureTypeType) bool {
 	sv := serverVars[s]
-	return sv.exists && (sv.role == model.RoleTypeServer || sv.role == model.RoleTypeSpecial) && sv.typ == t
+	return sv.exists && (sv.role == model.RoleTypeServer || sv.role == model.RoleTypeSpecial) && (sv.typ == t || sv.typ == model.FeatureTypeTypeGeneric)
 }
 
 func dropWhere(l []regEntry, f func(regEntry) bool) ([]regEntry, int) {
@@ -219,8 +221,16 @@ func peerEnts(nested bool) []world.EntSpec {
 // parent [1]) and every peer announces a sub-entity [1,1] with the same client features, so that every address
 // comparison by prefix, by length or by last element has a colliding instance.
 func newRegWorldN(events, approval, nested bool) *regWorld {
+	return newRegWorldG(events, approval, nested, false)
+}
+
+// newRegWorldG: with generic set, local entity [1] also has a server feature of type Generic (feature 5).
+func newRegWorldG(events, approval, nested, generic bool) *regWorld {
 	w := world.New(events)
 	stdLocal(w)
+	if generic {
+		world.AddLocalFeature(w.L.Entity(spine.NewAddressEntityType([]uint{1})).(*spine.EntityLocal), model.FeatureTypeTypeGeneric, model.RoleTypeServer)
+	}
 	servers := []string{"L1lc", "L2lc"}
 	if nested {
 		stdLocalEntity(w, []uint{1, 1})
@@ -934,8 +944,9 @@ func mentionsNested(ops []string) bool {
 // regDriver builds an HDriver over the registry world.
 func regDriver(name string, alphabet []string, events, approval bool, extra func(rw *regWorld, op string) []string) *engine.HDriver {
 	nested := mentionsNested(alphabet)
+	generic := strings.Contains(strings.Join(alphabet, " "), ":L1gen")
 	return &engine.HDriver{Name: name, Alphabet: alphabet, Step: func(hist []string, op string) engine.HStep {
-		rw := newRegWorldN(events, approval, nested)
+		rw := newRegWorldG(events, approval, nested, generic)
 		rw.evOn = events
 		rt.WaitIdle()
 		for _, h := range hist {
